@@ -109,6 +109,9 @@ pub struct FnTr<'a> {
 // through `match` arms / `if` branches / blocks): there `if c { return x; }` before a block's value is a branch.
 // `ex` (any non-tail expression) masks it.
 thread_local! { static TAIL_POS: std::cell::Cell<bool> = const { std::cell::Cell::new(false) }; }
+// builder B: the expression being translated is the last (value) statement of a statement-mode block (state-passing
+// method), i.e. the function's tail; cleared on every entry into `ex` (value positions)
+thread_local! { static STMT_TAIL: std::cell::Cell<bool> = const { std::cell::Cell::new(false) }; }
 
 pub(crate) type Env = HashMap<String, Ty>;
 pub(crate) type Stmts = Vec<(String, Rhs)>;
@@ -522,8 +525,10 @@ impl<'a> FnTr<'a> {
                     }
                     if last && semi.is_none() && !(self.ret == Ty::Unit && !self.muts.is_empty()) {
                         let prev = TAIL_POS.with(|t| t.replace(self.muts.is_empty() && !self.reg.io.borrow().mode));
+                        let prev2 = STMT_TAIL.with(|t| t.replace(!self.muts.is_empty() && !self.reg.io.borrow().mode));
                         let tail = self.tail_expr(e, env, &mut st);
                         TAIL_POS.with(|t| t.set(prev));
+                        STMT_TAIL.with(|t| t.set(prev2));
                         let tail = tail?;
                         return Ok(Seq { stmts: st, tail });
                     }
@@ -568,6 +573,29 @@ impl<'a> FnTr<'a> {
                             };
                             let (src, _) = self.ex(&mc.args[0], env, &mut st, Some(td.clone()))?;
                             st.push((lean_ident(&dname), Rhs::Act(format!("Rt.copyFromSlice {} {} {} {}", paren(&d), paren(&a), paren(&b), paren(&src)))));
+                        }
+                        // builder B: `place.field[a..b].copy_from_slice(src);` on an array field reached through a
+                        // place (`self.packet[..]`): same `Rt.copyFromSlice`, the result written back into the place
+                        Expr::MethodCall(mc) if mc.method == "copy_from_slice" && mc.args.len() == 1 && matches!(&*mc.receiver, Expr::Index(ix) if matches!(&*ix.index, Expr::Range(_)) && matches!(&*ix.expr, Expr::Field(_))) => {
+                            let Expr::Index(ix) = &*mc.receiver else { unreachable!() };
+                            let Expr::Range(r) = &*ix.index else { unreachable!() };
+                            let (root, fields, td) = self.place(&ix.expr, env)?;
+                            if !matches!(td, Ty::Arr(_)) || !matches!(r.limits, RangeLimits::HalfOpen(_)) {
+                                return Err("copy_from_slice: unsupported destination".into());
+                            }
+                            let (d, _) = self.ex(&ix.expr, env, &mut st, None)?;
+                            let a = match &r.start {
+                                Some(e) => self.ex(e, env, &mut st, Some(Ty::Int("usize")))?.0,
+                                None => "0".to_string(),
+                            };
+                            let b = match &r.end {
+                                Some(e) => self.ex(e, env, &mut st, Some(Ty::Int("usize")))?.0,
+                                None => format!("(Int.ofNat {}.length)", paren(&d)),
+                            };
+                            let (src, _) = self.ex(&mc.args[0], env, &mut st, Some(td.clone()))?;
+                            let t = self.act(&mut st, format!("Rt.copyFromSlice {} {} {} {}", paren(&d), paren(&a), paren(&b), paren(&src)));
+                            st.push((lean_ident(&root), Rhs::Pure(update_term(&lean_ident(&root), &fields, &t))));
+                            self.ref_writeback(&root, &mut st);
                         }
                         Expr::Return(r) => {
                             let e = match r.expr.as_ref() {
@@ -1955,15 +1983,30 @@ impl<'a> FnTr<'a> {
                     }
                 };
                 let mut ta: Option<Ty> = None;
+                let stmt_tail = STMT_TAIL.with(|t| t.get());
                 let then_stmts = &ei.then_branch.stmts;
                 let ex2 = expect.clone();
                 let tail = self.if_chain(
                     &ei.cond,
                     env,
                     &mut |this: &mut Self, env_t: &mut Env| {
-                        let (a, t) = this.block_val(then_stmts, env_t, ex2.clone())?;
-                        ta = Some(t);
-                        Ok(a)
+                        // builder B: a then-branch with `let x = e?;` lets (early exits) in the function's tail position of
+                        // a state-passing method: continue as statements (`block_tail`), where `?` is supported.  Only
+                        // taken where the value-block translation refuses, so nothing that translated before changes.
+                        let mut env_try = env_t.clone();
+                        match this.block_val(then_stmts, &mut env_try, ex2.clone()) {
+                            Ok((a, t)) => {
+                                *env_t = env_try;
+                                ta = Some(t);
+                                Ok(a)
+                            }
+                            Err(e) if e.contains("early exit inside a value block") && !this.muts.is_empty() && !this.reg.io.borrow().mode && stmt_tail => {
+                                let a = this.block_tail(then_stmts, env_t)?;
+                                ta = Some(ex2.clone().unwrap_or(this.ret.clone()));
+                                Ok(a)
+                            }
+                            Err(e) => Err(e),
+                        }
                     },
                     b,
                     st,
@@ -1991,7 +2034,22 @@ impl<'a> FnTr<'a> {
             }
             Expr::Match(m) => self.match_expr(m, env, st, expect),
             Expr::Block(b) => {
-                let (s, ty) = self.block_val(&b.block.stmts, env, expect)?;
+                // builder B: as for the then-branch of a tail `if let` — a block (match arm) with `let x = e?;` lets in the
+                // function's tail position of a state-passing method continues as statements; only where the value-block
+                // translation refuses
+                let stmt_tail = STMT_TAIL.with(|t| t.get());
+                let mut env_try = env.clone();
+                let (s, ty) = match self.block_val(&b.block.stmts, &mut env_try, expect.clone()) {
+                    Ok(r) => {
+                        *env = env_try;
+                        r
+                    }
+                    Err(e) if e.contains("early exit inside a value block") && !self.muts.is_empty() && !self.reg.io.borrow().mode && stmt_tail => {
+                        let seq = self.block_tail(&b.block.stmts, env)?;
+                        (seq, expect.clone().unwrap_or(self.ret.clone()))
+                    }
+                    Err(e) => return Err(e),
+                };
                 st.extend(s.stmts);
                 Ok((s.tail, ty))
             }
@@ -2675,8 +2733,10 @@ impl<'a> FnTr<'a> {
     /// Translate an expression; fallible sub-computations are hoisted into `st`.
     pub fn ex(&mut self, e: &Expr, env: &mut Env, st: &mut Stmts, expect: Option<Ty>) -> Res<(String, Ty)> {
         let prev = TAIL_POS.with(|t| t.replace(false));
+        let prev_stmt_tail = STMT_TAIL.with(|t| t.replace(false));
         let r = self.ex_inner(e, env, st, expect);
         TAIL_POS.with(|t| t.set(prev));
+        STMT_TAIL.with(|t| t.set(prev_stmt_tail));
         r
     }
 
@@ -3023,7 +3083,10 @@ impl<'a> FnTr<'a> {
     fn tail_expr_ty_value(&mut self, e: &Expr, env: &mut Env, st: &mut Stmts, expect: Option<Ty>) -> Res<(Tail, Ty)> {
         // like tail_expr_ty but `return` inside is not allowed; we do not detect nested returns
         // syntactically here beyond the direct children handled by block_val.
-        if contains_return(e) {
+        // builder B: in I/O mode `return Err(e)` is a throw of the monad (it short-circuits whatever it is bound in), only a
+        // `return Ok(..)` is a real early return
+        let io = self.reg.io.borrow().mode && !self.reg.io.borrow().in_pure;
+        if (io && crate::phyio::returns_ok(e)) || (!io && contains_return(e)) {
             return Err("`return` inside a value-position branch is not supported".into());
         }
         self.tail_expr_ty(e, env, st, expect)
